@@ -107,7 +107,12 @@ class Devices:
         if isinstance(
             telegram.destination_address, GroupAddress | InternalGroupAddress
         ):
-            for device in self.devices_by_group_address(telegram.destination_address):
+            # Processing a telegram may add or remove devices (e.g. from a device
+            # updated callback). Iterate a snapshot so that no registered device is
+            # skipped when the list of an address shrinks during the dispatch.
+            for device in tuple(
+                self.devices_by_group_address(telegram.destination_address)
+            ):
                 device.process(telegram)
 
     async def sync(self) -> None:
